@@ -14,6 +14,7 @@ if np.finfo(LD).eps > 1e-18:
 PI = LD("3.14159265358979323846264338327950288")
 RAD = PI / 180          # radians per degree
 EPS = float(np.finfo(np.float64).eps)
+EPS32 = float(np.finfo(np.float32).eps)
 
 
 class OracleError(Exception):
@@ -107,6 +108,37 @@ def unit_vectors(lat, lon):
     return geocentric_to_cart(1, lat, lon)
 
 
+def local_frame(lat, lon):
+    """Unit vectors up, north, east (each a tuple x, y, z) at a direction."""
+    lat, lon = np.broadcast_arrays(ld(lat) * RAD, ld(lon) * RAD)
+    up = (np.cos(lat) * np.cos(lon), np.cos(lat) * np.sin(lon), np.sin(lat))
+    north = (-np.sin(lat) * np.cos(lon), -np.sin(lat) * np.sin(lon),
+             np.cos(lat))
+    east = (-np.sin(lon), np.cos(lon), np.zeros_like(lon))
+    return up, north, east
+
+
+def los_to_cart(lat, lon, za, aa):
+    """Cartesian unit line of sight of zenith/azimuth angles (east-north-up:
+    za = 0 up, za = 90 and aa = 0 north, aa = 90 east) at a position."""
+    za, aa = ld(za) * RAD, ld(aa) * RAD
+    parts = zip(*local_frame(lat, lon))
+    return tuple(np.cos(za) * u + np.sin(za) * (np.cos(aa) * n
+                                                + np.sin(aa) * e)
+                 for u, n, e in parts)
+
+
+def cart_to_poslos(x, y, z, dx, dy, dz):
+    """r, lat, lon, za, aa of a cartesian position and line of sight (any
+    length); atan2 forms, well conditioned away from zenith/nadir/poles."""
+    r, lat, lon = cart_to_geocentric(x, y, z)
+    los = (ld(dx), ld(dy), ld(dz))
+    up, north, east = (sum(c * d for c, d in zip(axis, los))
+                       for axis in local_frame(lat, lon))
+    za = np.arctan2(np.hypot(north, east), up) / RAD
+    return r, lat, lon, za, np.arctan2(east, north) / RAD
+
+
 def central_angle(lat1, lon1, lat2, lon2):
     """Angle (rad) between two directions, and a = sin^2(angle/2).
     atan2(|u-v|, |u+v|) is well conditioned from 0 to pi."""
@@ -117,17 +149,19 @@ def central_angle(lat1, lon1, lat2, lon2):
     return 2 * np.arctan2(dm, dp), (dm / 2) ** 2
 
 
-def arc_tolerance(angle, a, k=32):
-    """Error bound (rad) of a float64 haversine evaluation: k eps absolute
+def arc_tolerance(angle, a, k=32, eps=EPS):
+    """Error bound (rad) of a haversine evaluation in floating point
+    arithmetic of unit roundoff eps (float64): k eps absolute
     on sqrt(a) (inputs of a few radians, a handful of operations), amplified
     by d asin(s)/ds = 1/sqrt(1-a), at worst sqrt(2 k eps) at the antipode;
     plus relative rounding of the result."""
-    amp = np.minimum(k * EPS / np.sqrt(np.maximum(1 - a, LD(1e-300))),
-                     np.sqrt(LD(2 * k * EPS)))
-    return 2 * amp + 4 * EPS * angle
+    amp = np.minimum(k * eps / np.sqrt(np.maximum(1 - a, LD(1e-300))),
+                     np.sqrt(LD(2 * k * eps)))
+    return 2 * amp + 4 * eps * angle
 
 
-def chord_tolerance(chord, radius, k=32):
-    """Error bound (m) of a float64 3-D chord: k eps R absolute (coordinates
+def chord_tolerance(chord, radius, k=32, eps=EPS):
+    """Error bound (m) of a 3-D chord in arithmetic of unit roundoff eps
+    (float64): k eps R absolute (coordinates
     of size R, angles of a few radians), plus relative rounding."""
-    return k * EPS * radius + 4 * EPS * chord
+    return k * eps * radius + 4 * eps * chord
